@@ -26,6 +26,22 @@ Theorem C32_rle_refines : forall ops,
 Proof. exact rle_refines. Qed.
 Print Assumptions C32_rle_refines.
 
+
+(* compiler.prepLocals inserts the n-byte PREP_LOCALS prologue in front of a finished function and
+   credits n bytes to the FIRST run of its table.  For every table built by an admissible operation
+   sequence: every existing offset moves by exactly n (offset i+n of the new table has the line
+   offset i had), the n inserted offsets (and the negative index) carry the line of the old byte 0,
+   and the table accounts for exactly n more bytes.  (OpPrologue is also an operation of the
+   sequences C32_rle_refines quantifies over, with the plain-list meaning
+   `repeat (line of byte 0) n ++ plain`.) *)
+Theorem C32_prologue_shift : forall ops t n,
+  Forall wf_op ops -> run_impl ops = Ok t -> 0 <= n ->
+  (forall i, 0 <= i -> get_line_number (prologue t n) (i + n) = get_line_number t i) /\
+  (forall j, j < n -> get_line_number (prologue t n) j = get_line_number t 0) /\
+  (t <> [] -> total_bytes (prologue t n) = total_bytes t + n).
+Proof. exact run_prologue_shift. Qed.
+Print Assumptions C32_prologue_shift.
+
 (* BuildStackTrace returns exactly: one entry per active (non-empty) frame of the call
    stack in stack order (outermost first), then the running function last; bytecode
    frames carry the function's names, its tail-call counter and the plain-list line of
@@ -88,3 +104,21 @@ Example C32_rle_guard_needed :
             run_spec [OpAdd 5 2; OpAdd 6 0; OpRemove 1] = Ok [5] /\
             get_line_number t 1 = 5.
 Proof. eexists. repeat split; vm_compute; reflexivity. Qed.
+
+(* non-vacuity of the prologue: a 3-byte PREP_LOCALS16 in front of ex_ops' table moves every line by
+   3 and is credited to the first run; a prologue in the middle of a sequence is an operation like
+   any other; crediting one byte too few (2 for a 3-byte prologue, the seeded defect of the
+   strengthening round) makes offset i+3 answer with the line of offset i+1. *)
+Example C32_prologue_nonvacuous :
+  (exists t, run_impl (ex_ops ++ [OpPrologue 3]) = Ok t /\
+             entries t = [LI 3 6; LI 5 2; LI 4 2] /\ total_bytes t = 10 /\
+             run_spec (ex_ops ++ [OpPrologue 3]) = Ok [3; 3; 3; 3; 3; 3; 5; 5; 4; 4]) /\
+  run_spec [OpPrologue 2; OpAdd 7 1; OpPrologue 2; OpAdd 8 1] = Ok [7; 7; 7; 8] /\
+  (exists t, run_impl ex_ops = Ok t /\
+             map (fun i => get_line_number (prologue t 3) (i + 3)) [0; 2; 3; 4; 5; 6] = [3; 3; 5; 5; 4; 4] /\
+             map (fun i => get_line_number (prologue t 2) (i + 3)) [0; 2; 3; 4; 5; 6] = [3; 5; 5; 4; 4; -1]).
+Proof.
+  split; [eexists; repeat split; vm_compute; reflexivity|].
+  split; [vm_compute; reflexivity|].
+  eexists; repeat split; vm_compute; reflexivity.
+Qed.
